@@ -431,4 +431,403 @@ theorem silentInv_init (cfg : Cfg) (hs us cache) : SilentInv cfg (init hs us cac
   rename_i c s h; cases s <;> simp [tableHas] at h
 
 
+theorem liveOf_append (σ : State) (o : Obs) (tr : List Obs) (h : tr = σ.trace ++ [o]) :
+    silentMon.after silentMon.init tr = liveNext (liveOf σ) o := by
+  subst h; exact Mon.after_append silentMon silentMon.init σ.trace o
+
+theorem mem_filter_not_ends {l : List Scope} {r : Req} {s : Scope} (h : s ∈ l) (h2 : ends r s = false) :
+    s ∈ l.filter (fun a => !ends r a) := by
+  simp [List.mem_filter, h, h2]
+
+theorem silent_acc_stepH (cfg : Cfg) (σ σ' : State) (c : Conn) (hI : SilentInv cfg σ)
+    (hs : stepH cfg σ c = some σ') : silentMon.acceptsFrom silentMon.init σ'.trace = true := by
+  have hacc := hI.acc
+  unfold stepH at hs
+  step_cases hs
+  all_goals (try simp only [tableWrite_trace]); (try exact hacc)
+  all_goals
+    try dsimp only
+    rw [Mon.acceptsFrom_append, hacc]
+    simp [silentMon, silentOk]
+  -- the snapshot send
+  rename_i s m p e ps rest heq
+  have h1 := hI.act c s (by simp [heq, activating])
+  have h2 := hI.cov c
+  rw [heq] at h2
+  simp only [covInv] at h2
+  simp only [coveredBy, List.any_eq_true]
+  exact ⟨s, h1, h2.1⟩
+
+
+theorem liveNext_emit (live u m p e) : liveNext live (.emit u m p e) = live := rfl
+theorem liveNext_emitDone (live u) : liveNext live (.emitDone u) = live := rfl
+theorem liveNext_deliver (live c m p e) : liveNext live (.deliver c m p e) = live := rfl
+
+theorem stepU_sending (cfg : Cfg) (σ σ' : State) (k : Nat) (arg : Conn) (hs : stepU cfg σ k arg = some σ')
+    (m : Mod) (p : Par) (e : Entry) (l : List Conn) (h : σ'.upc k = .sending m p e l) :
+    (σ.upc k = .wantSub m p e ∧ l = listeners cfg σ m p) ∨
+    (∃ l0, σ.upc k = .sending m p e l0 ∧ ∀ c ∈ l, c ∈ l0) := by
+  unfold stepU at hs
+  step_cases hs
+  all_goals simp only [set_same] at h
+  all_goals (try cases h)
+  · left; rename_i heq; exact ⟨heq, rfl⟩
+  · right; rename_i heq
+    refine ⟨_, heq, ?_⟩
+    intro c hc
+    exact (List.mem_filter.1 hc).1
+
+theorem stepU_deliver (cfg : Cfg) (σ σ' : State) (k : Nat) (arg : Conn) (hs : stepU cfg σ k arg = some σ') :
+    σ'.trace = σ.trace ∨ (∃ u m p e, σ'.trace = σ.trace ++ [.emit u m p e]) ∨ (∃ u, σ'.trace = σ.trace ++ [.emitDone u]) ∨
+    (∃ m p e l, σ.upc k = .sending m p e l ∧ arg ∈ l ∧ σ'.trace = σ.trace ++ [.deliver arg m p e]) := by
+  unfold stepU at hs
+  step_cases hs
+  all_goals first
+    | (left; rfl)
+    | (right; left; exact ⟨_, _, _, _, rfl⟩)
+    | (right; right; right; rename_i heq harg; exact ⟨_, _, _, _, heq, harg, rfl⟩)
+    | (right; right; left; exact ⟨_, rfl⟩)
+
+theorem silentInv_stepU (cfg : Cfg) (σ σ' : State) (k : Nat) (arg : Conn) (hI : SilentInv cfg σ)
+    (hs : stepU cfg σ k arg = some σ') : SilentInv cfg σ' := by
+  obtain ⟨hacc, htbl, hact, hsnd, hclr, hcov⟩ := hI
+  obtain ⟨f1, f2, f3, f4, f5, f6, f7, f8, f9, f10, f11⟩ := stepU_frame cfg σ σ' k arg hs
+  clear f3 f4 f8 f9 f10 f11
+  have htab : ∀ c s, tableHas σ' c s = tableHas σ c s := by
+    intro c s; cases s <;> simp [tableHas, f5, f6, f7]
+  have hlis : ∀ c m p, listens σ' c m p = listens σ c m p := by
+    intro c m p; simp [listens, f5, f6, f7]
+  have htr := stepU_deliver cfg σ σ' k arg hs
+  have hlive : liveOf σ' = liveOf σ := by
+    simp only [liveOf]
+    rcases htr with h | ⟨u, m, p, e, h⟩ | ⟨u, h⟩ | ⟨m, p, e, l, _, _, h⟩
+    · rw [h]
+    all_goals (rw [h, Mon.after_append]; rfl)
+  refine ⟨?_, ?_, ?_, ?_, ?_, ?_⟩
+  · rcases htr with h | ⟨u, m, p, e, h⟩ | ⟨u, h⟩ | ⟨m, p, e, l, heq, harg, h⟩
+    · rw [h]; exact hacc
+    · rw [h, Mon.acceptsFrom_append, hacc]; simp [silentMon, silentOk]
+    · rw [h, Mon.acceptsFrom_append, hacc]; simp [silentMon, silentOk]
+    · rw [h, Mon.acceptsFrom_append, hacc]
+      have h1 := hsnd k m p e l heq arg harg
+      obtain ⟨s, h2, h3⟩ := (listens_iff σ arg m p).1 h1
+      simp only [silentMon, silentOk, Bool.true_and, coveredBy, List.any_eq_true]
+      exact ⟨s, htbl arg s h2, h3⟩
+  · intro c s h; rw [hlive]; rw [htab] at h; exact htbl c s h
+  · intro c s h; rw [hlive]; rw [f2] at h; exact hact c s h
+  · intro k' m p e l hk' c hc
+    rw [hlis]
+    by_cases hk : k' = k
+    · subst hk
+      rcases stepU_sending cfg σ σ' k' arg hs m p e l hk' with ⟨h1, h2⟩ | ⟨l0, h1, h2⟩
+      · subst h2
+        simp only [listeners, List.mem_filter] at hc
+        exact hc.2
+      · exact hsnd k' m p e l0 h1 c (h2 c hc)
+    · rw [f1, set_other _ _ _ _ hk] at hk'
+      exact hsnd k' m p e l hk' c hc
+  · intro c r h a ha; rw [htab]; rw [f2] at h; exact hclr c r h a ha
+  · intro c; rw [f2]; exact hcov c
+
+
+/-- an action of connection `c` that changes neither the tables nor the monitor's scopes -/
+theorem silentInv_pcOnly (cfg : Cfg) (σ σ' : State) (c : Conn) (pc' : HPc) (hI : SilentInv cfg σ)
+    (hacc : silentMon.acceptsFrom silentMon.init σ'.trace = true)
+    (hpc : σ'.hpc = set σ.hpc c pc') (hlive : liveOf σ' = liveOf σ) (hupc : σ'.upc = σ.upc)
+    (ha : σ'.active = σ.active) (hm : σ'.subMod = σ.subMod) (hp : σ'.subPar = σ.subPar)
+    (hact : ∀ s, activating pc' = some s → activating (σ.hpc c) = some s)
+    (hclr : ∀ r, ending pc' = some r → ending (σ.hpc c) = some r ∨ ∀ a, ends r a = false)
+    (hcov : covInv cfg pc') : SilentInv cfg σ' := by
+  have htab : ∀ c s, tableHas σ' c s = tableHas σ c s := by
+    intro c s; cases s <;> simp [tableHas, ha, hm, hp]
+  have hlis : ∀ c m p, listens σ' c m p = listens σ c m p := by
+    intro c m p; simp [listens, ha, hm, hp]
+  refine ⟨hacc, ?_, ?_, ?_, ?_, ?_⟩
+  · intro c' s h; rw [hlive]; rw [htab] at h; exact hI.tbl c' s h
+  · intro c' s h; rw [hlive]; rw [hpc, set_apply] at h
+    split at h
+    · rename_i hc; rw [hc]; exact hI.act c s (hact s h)
+    · exact hI.act c' s h
+  · intro k m p e l hk c' hc'; rw [hlis]; rw [hupc] at hk; exact hI.snd k m p e l hk c' hc'
+  · intro c' r h a ha'; rw [htab]; rw [hpc, set_apply] at h
+    split at h
+    · rename_i hc; rw [hc]
+      rcases hclr r h with h1 | h1
+      · exact hI.clr c r h1 a ha'
+      · rw [h1 a] at ha'; cases ha'
+    · exact hI.clr c' r h a ha'
+  · intro c'; rw [hpc, set_apply]; split
+    · exact hcov
+    · exact hI.cov c'
+
+theorem mem_liveNext_reqStart (live : Conn → List Scope) (c : Conn) (r : Req) (c' : Conn) (s : Scope)
+    (h : s ∈ live c') : s ∈ liveNext live (.reqStart c r) c' := by
+  cases r <;> simp [liveNext, set_apply] <;> (try exact h)
+  split
+  · rename_i hc; subst hc; exact List.mem_cons_of_mem _ h
+  · exact h
+
+/-- the request marker -/
+theorem silentInv_begin (cfg : Cfg) (σ σ' : State) (c : Conn) (r : Req) (hI : SilentInv cfg σ)
+    (hacc : silentMon.acceptsFrom silentMon.init σ'.trace = true)
+    (hidle : σ.hpc c = .idle)
+    (hpc : σ'.hpc = set σ.hpc c (firstPc r)) (htr : σ'.trace = σ.trace ++ [.reqStart c r]) (hupc : σ'.upc = σ.upc)
+    (ha : σ'.active = σ.active) (hm : σ'.subMod = σ.subMod) (hp : σ'.subPar = σ.subPar) : SilentInv cfg σ' := by
+  have htab : ∀ c s, tableHas σ' c s = tableHas σ c s := by
+    intro c s; cases s <;> simp [tableHas, ha, hm, hp]
+  have hlis : ∀ c m p, listens σ' c m p = listens σ c m p := by
+    intro c m p; simp [listens, ha, hm, hp]
+  have hlive : liveOf σ' = liveNext (liveOf σ) (.reqStart c r) := by
+    simp only [liveOf]; rw [htr, Mon.after_append]; rfl
+  refine ⟨hacc, ?_, ?_, ?_, ?_, ?_⟩
+  · intro c' s h; rw [hlive]; rw [htab] at h; exact mem_liveNext_reqStart _ _ _ _ _ (hI.tbl c' s h)
+  · intro c' s h; rw [hlive]; rw [hpc, set_apply] at h
+    split at h
+    · rename_i hc; subst hc
+      cases r <;> simp [firstPc, activating] at h
+      subst h; simp [liveNext]
+    · exact mem_liveNext_reqStart _ _ _ _ _ (hI.act c' s h)
+  · intro k m p e l hk c' hc'; rw [hlis]; rw [hupc] at hk; exact hI.snd k m p e l hk c' hc'
+  · intro c' r' h a ha'; rw [htab]; rw [hpc, set_apply] at h
+    split at h
+    · cases r <;> simp [firstPc, ending] at h
+    · exact hI.clr c' r' h a ha'
+  · intro c'; rw [hpc, set_apply]; split
+    · cases r <;> simp [firstPc, covInv]
+    · exact hI.cov c'
+
+/-- a reply (or the end of a disconnect) -/
+theorem silentInv_reply (cfg : Cfg) (σ σ' : State) (c : Conn) (r : Req) (ok : Bool) (hI : SilentInv cfg σ)
+    (hacc : silentMon.acceptsFrom silentMon.init σ'.trace = true)
+    (hend : ok = true → ending (σ.hpc c) = some r)
+    (hpc : σ'.hpc = set σ.hpc c .idle) (htr : σ'.trace = σ.trace ++ [.reply c r ok]) (hupc : σ'.upc = σ.upc)
+    (ha : σ'.active = σ.active) (hm : σ'.subMod = σ.subMod) (hp : σ'.subPar = σ.subPar) : SilentInv cfg σ' := by
+  have htab : ∀ c s, tableHas σ' c s = tableHas σ c s := by
+    intro c s; cases s <;> simp [tableHas, ha, hm, hp]
+  have hlis : ∀ c m p, listens σ' c m p = listens σ c m p := by
+    intro c m p; simp [listens, ha, hm, hp]
+  have hlive : liveOf σ' = liveNext (liveOf σ) (.reply c r ok) := by
+    simp only [liveOf]; rw [htr, Mon.after_append]; rfl
+  have hkeep : ∀ c' s, s ∈ liveOf σ c' → (c' = c → tableHas σ c s = true ∨ False) → s ∈ liveOf σ' c' := by
+    intro c' s h hx
+    rw [hlive]
+    cases ok with
+    | false => exact h
+    | true =>
+      simp only [liveNext, set_apply]
+      split
+      · rename_i hc; subst hc
+        rcases hx rfl with ht | hf
+        · apply mem_filter_not_ends h
+          cases he : ends r s with
+          | false => rfl
+          | true => have := hI.clr c' r (hend rfl) s he; rw [ht] at this; cases this
+        · exact hf.elim
+      · exact h
+  refine ⟨hacc, ?_, ?_, ?_, ?_, ?_⟩
+  · intro c' s h; rw [htab] at h
+    exact hkeep c' s (hI.tbl c' s h) (by intro hc; subst hc; exact Or.inl h)
+  · intro c' s h; rw [hpc, set_apply] at h
+    split at h
+    · simp [activating] at h
+    · rename_i hc
+      exact hkeep c' s (hI.act c' s h) (by intro hc'; exact absurd hc' hc)
+  · intro k m p e l hk c' hc'; rw [hlis]; rw [hupc] at hk; exact hI.snd k m p e l hk c' hc'
+  · intro c' r' h a ha'; rw [htab]; rw [hpc, set_apply] at h
+    split at h
+    · simp [ending] at h
+    · exact hI.clr c' r' h a ha'
+  · intro c'; rw [hpc, set_apply]; split
+    · simp [covInv]
+    · exact hI.cov c'
+
+
+theorem tableHas_write_other (σ : State) (c c' : Conn) (r : Req) (s : Scope) (h : c' ≠ c) :
+    tableHas (tableWrite σ c r) c' s = tableHas σ c' s := by
+  cases r with
+  | activate s0 => cases s0 <;> cases s <;> simp [tableWrite, register, tableHas, h]
+  | deactivate s0 => cases s0 <;> cases s <;> simp [tableWrite, unregister, tableHas, h]
+  | ident => cases s <;> simp [tableWrite, resetConn, tableHas, h]
+  | disconnect => cases s <;> simp [tableWrite, resetConn, tableHas, h]
+
+theorem tableHas_write_self (σ : State) (c : Conn) (r : Req) (s : Scope)
+    (h : tableHas (tableWrite σ c r) c s = true) : tableHas σ c s = true ∨ r = .activate s := by
+  cases r with
+  | activate s0 =>
+    cases s0 <;> cases s <;> simp_all [tableWrite, register, tableHas]
+    all_goals (rcases h with h | h <;> simp_all)
+  | deactivate s0 =>
+    cases s0 <;> cases s <;> simp_all [tableWrite, unregister, tableHas]
+  | ident => cases s <;> simp_all [tableWrite, resetConn, tableHas]
+  | disconnect => cases s <;> simp_all [tableWrite, resetConn, tableHas]
+
+theorem tableHas_write_ends (σ : State) (c : Conn) (r : Req) (a : Scope) (h : ends r a = true) :
+    tableHas (tableWrite σ c r) c a = false := by
+  cases r with
+  | activate s0 => simp [ends] at h
+  | deactivate s0 =>
+    cases s0 <;> cases a <;> simp_all [tableWrite, unregister, tableHas, ends, cancels]
+  | ident => cases a <;> simp [tableWrite, resetConn, tableHas]
+  | disconnect => cases a <;> simp [tableWrite, resetConn, tableHas]
+
+/-- the table change of a request -/
+theorem silentInv_write (cfg : Cfg) (σ σ' : State) (c : Conn) (r : Req) (hI : SilentInv cfg σ) (hL : LockInv σ)
+    (hacc : silentMon.acceptsFrom silentMon.init σ'.trace = true)
+    (hold : σ.hpc c = .wantSub r) (hfree : σ.sub = none)
+    (hpc : σ'.hpc = set σ.hpc c (.relSub r)) (htr : σ'.trace = σ.trace) (hupc : σ'.upc = σ.upc)
+    (htab : ∀ c' s, tableHas σ' c' s = tableHas (tableWrite σ c r) c' s) : SilentInv cfg σ' := by
+  have hlive : liveOf σ' = liveOf σ := by simp only [liveOf, htr]
+  refine ⟨hacc, ?_, ?_, ?_, ?_, ?_⟩
+  · intro c' s h; rw [hlive]; rw [htab] at h
+    by_cases hc : c' = c
+    · subst hc
+      rcases tableHas_write_self σ c' r s h with h1 | h1
+      · exact hI.tbl c' s h1
+      · subst h1; exact hI.act c' s (by rw [hold]; rfl)
+    · rw [tableHas_write_other σ c c' r s hc] at h; exact hI.tbl c' s h
+  · intro c' s h; rw [hlive]; rw [hpc, set_apply] at h
+    split at h
+    · rename_i hc; subst hc
+      apply hI.act c' s; rw [hold]
+      cases r <;> simp_all [activating]
+    · exact hI.act c' s h
+  · intro k m p e l hk c' hc'
+    rw [hupc] at hk
+    have := (hL.sub (.u k)).1 (by simp [holdsSub, hk])
+    rw [hfree] at this; cases this
+  · intro c' r' h a ha'; rw [htab]; rw [hpc, set_apply] at h
+    split at h
+    · rename_i hc; subst hc
+      simp only [ending, Option.some.injEq] at h; subst h
+      exact tableHas_write_ends σ c' r a ha'
+    · rename_i hc
+      rw [tableHas_write_other σ c c' r a hc]; exact hI.clr c' r' h a ha'
+  · intro c'; rw [hpc, set_apply]; split
+    · simp [covInv]
+    · exact hI.cov c'
+
+
+theorem activating_afterSnap (s : Scope) (l : List Mod) : activating (afterSnap s l) = some s := by
+  cases l <;> rfl
+
+theorem ending_afterSnap (s : Scope) (l : List Mod) (r : Req) (h : ending (afterSnap s l) = some r) :
+    r = .activate s := by
+  cases l <;> simp [afterSnap, ending] at h; exact h.symm
+
+theorem covInv_afterSnap (cfg : Cfg) (s : Scope) (l : List Mod) (h : ∀ m ∈ l, goodMod cfg s m) :
+    covInv cfg (afterSnap s l) := by
+  cases l with
+  | nil => simp [afterSnap, covInv]
+  | cons m rest => simpa [afterSnap, covInv] using h
+
+theorem silentInv_stepH (cfg : Cfg) (σ σ' : State) (c : Conn) (hI : SilentInv cfg σ) (hL : LockInv σ)
+    (hs : stepH cfg σ c = some σ') : SilentInv cfg σ' := by
+  have hacc := silent_acc_stepH cfg σ σ' c hI hs
+  have hcov := hI.cov c
+  unfold stepH at hs
+  step_cases hs
+  · -- thread ends
+    rename_i heq _
+    exact silentInv_pcOnly cfg σ _ c .done hI hacc rfl rfl rfl rfl rfl rfl (by simp [activating]) (by simp [ending]) (by simp [covInv])
+  · rename_i _ heq _ r rs _
+    exact silentInv_begin cfg σ _ c r hI hacc heq rfl rfl rfl rfl rfl rfl
+  · rename_i r heq _ _
+    exact silentInv_pcOnly cfg σ _ c _ hI hacc rfl rfl rfl rfl rfl rfl
+      (by intro s h; rw [heq]; cases r <;> simp_all [activating]) (by simp [ending]) (by simp [covInv])
+  · rename_i r heq _ _
+    exact silentInv_pcOnly cfg σ _ c _ hI hacc rfl rfl rfl rfl rfl rfl
+      (by intro s h; rw [heq]; cases r <;> simp_all [activating]) (by simp [ending]) (by simp [covInv])
+  · rename_i r heq hfree
+    exact silentInv_write cfg σ _ c r hI hL hacc heq hfree (by simp) (by simp) (by simp)
+      (by intro c' s; cases s <;> rfl)
+  · rename_i r heq hr
+    subst hr
+    exact silentInv_reply cfg σ _ c .disconnect true hI hacc (by intro _; rw [heq]; rfl) (by simp [afterTable]) rfl rfl rfl rfl rfl
+  · rename_i r heq hr
+    refine silentInv_pcOnly cfg σ _ c _ hI hacc rfl rfl rfl rfl rfl rfl ?_ ?_ ?_
+    · intro s h; rw [heq]
+      cases r with
+      | activate s0 => simp only [afterTable] at h; rw [activating_afterSnap] at h; simpa [activating] using h
+      | deactivate s0 => simp [afterTable, activating] at h
+      | ident => simp [afterTable, activating] at h
+      | disconnect => exact absurd rfl hr
+    · intro r' h; rw [heq]; left
+      cases r with
+      | activate s => simp only [afterTable] at h; rw [ending_afterSnap s _ r' h]; rfl
+      | deactivate s => simpa [afterTable, ending] using h
+      | ident => simpa [afterTable, ending] using h
+      | disconnect => exact absurd rfl hr
+    · cases r with
+      | activate s => exact covInv_afterSnap cfg s _ (goodMod_scopeMods cfg s)
+      | _ => simp [afterTable, covInv]
+  · rename_i s m rest heq hfree
+    rw [heq] at hcov
+    exact silentInv_pcOnly cfg σ _ c _ hI hacc rfl rfl rfl rfl rfl rfl
+      (by intro s' h; rw [heq]; simpa [activating] using h) (by simp [ending])
+      (by simp only [covInv] at hcov ⊢; exact ⟨hcov m (by simp), fun m' hm' => hcov m' (by simp [hm'])⟩)
+  · rename_i s m rest heq
+    rw [heq] at hcov
+    exact silentInv_pcOnly cfg σ _ c _ hI hacc rfl rfl rfl rfl rfl rfl
+      (by intro s' h; rw [heq]; rw [activating_afterSnap] at h; simpa [activating] using h)
+      (by intro r' h; have := ending_afterSnap s rest r' h; subst this; right; intro a; rfl)
+      (covInv_afterSnap cfg s rest hcov.2)
+  · rename_i s m p ps rest heq
+    rw [heq] at hcov
+    exact silentInv_pcOnly cfg σ _ c _ hI hacc rfl rfl rfl rfl rfl rfl
+      (by intro s' h; rw [heq]; simpa [activating] using h) (by simp [ending])
+      (by simp only [covInv] at hcov ⊢
+          exact ⟨hcov.1 p (by simp), fun p' hp' => hcov.1 p' (by simp [hp']), hcov.2⟩)
+  · rename_i s m p e ps rest heq
+    rw [heq] at hcov
+    exact silentInv_pcOnly cfg σ _ c _ hI hacc rfl
+      (by simp only [liveOf]; rw [Mon.after_append]; rfl) rfl rfl rfl rfl
+      (by intro s' h; rw [heq]; simpa [activating] using h) (by simp [ending])
+      (by simp only [covInv] at hcov ⊢; exact ⟨hcov.2.1, hcov.2.2⟩)
+  · rename_i r ok heq
+    exact silentInv_pcOnly cfg σ _ c _ hI hacc rfl rfl rfl rfl rfl rfl
+      (by intro s' h; rw [heq]; cases r <;> simp_all [activating])
+      (by intro r' h; rw [heq]; left; cases ok <;> simp_all [ending]) (by simp [covInv])
+  · rename_i r ok heq
+    exact silentInv_reply cfg σ _ c r ok hI hacc (by intro h; subst h; rw [heq]; rfl) rfl rfl rfl rfl rfl rfl
+
+theorem silentInv_reach (cfg : Cfg) (hs us cache) (σ : State) (h : Reach cfg (init hs us cache) σ) :
+    SilentInv cfg σ := by
+  induction h with
+  | init => exact silentInv_init cfg hs us cache
+  | step a hprev hstep ih =>
+    have hL := lockInv_reach cfg hs us cache _ hprev
+    unfold step at hstep
+    split at hstep
+    · exact silentInv_stepH cfg _ _ _ ih hL hstep
+    · exact silentInv_stepU cfg _ _ _ _ ih hstep
+
+
+/-! ## runs -/
+
+theorem run_reach (cfg : Cfg) (σ₀ σ σ' : State) (as : List Act) (h : Reach cfg σ₀ σ) (hr : run cfg σ as = some σ') :
+    Reach cfg σ₀ σ' := by
+  induction as generalizing σ with
+  | nil => simp [run] at hr; subst hr; exact h
+  | cons a as ih =>
+    simp only [run] at hr
+    split at hr
+    · rename_i σ1 h1; exact ih σ1 (Reach.step a h h1) hr
+    · cases hr
+
+theorem listens_write_other (σ : State) (c c' : Conn) (r : Req) (m : Mod) (p : Par) (h : c' ≠ c) :
+    listens (tableWrite σ c r) c' m p = listens σ c' m p := by
+  cases r with
+  | activate s => cases s <;> simp [listens, tableWrite, register, h]
+  | deactivate s => cases s <;> simp [listens, tableWrite, unregister, h]
+  | ident => simp [listens, tableWrite, resetConn, h]
+  | disconnect => simp [listens, tableWrite, resetConn, h]
+
+theorem others_stepH (cfg : Cfg) (σ σ' : State) (c c' : Conn) (m : Mod) (p : Par) (h : c' ≠ c)
+    (hs : stepH cfg σ c = some σ') : listens σ' c' m p = listens σ c' m p := by
+  unfold stepH at hs
+  step_cases hs
+  all_goals first
+    | rfl
+    | exact listens_write_other σ c c' _ m p h
+
 end Frappy.Activate
